@@ -56,10 +56,18 @@ def w_pipeline(job):
             ns = 'c%d_' % sid
             lvals += [' '.join(pres.token(i, ns) for i in range(k) if m >> i & 1) for m in lt]
             rvals += [' '.join(pres.token(i, ns) for i in range(k) if m >> i & 1) for m in rt]
+    elif job['gen']['gen'] == 'rich':
+        from checks.configx import rich_tables
+        L, R, lvals, rvals = rich_tables(job['gen']['variant'])
+        keep = [i for i, v in enumerate(lvals) if not isna(v)], [j for j, v in enumerate(rvals) if not isna(v)]
+        L = L.iloc[keep[0]].rename(columns={'x_id': 'id'})
+        R = R.iloc[keep[1]].rename(columns={'y_id': 'id', 't': 's'})
+        lvals, rvals = [lvals[i] for i in keep[0]], [rvals[j] for j in keep[1]]
     else:
         lvals, rvals = gen_tables(job['gen'], pres)
-    L = mkframe(lvals, pres, prefix='l')
-    R = mkframe(rvals, pres, prefix='r')
+    if job['gen']['gen'] != 'rich':
+        L = mkframe(lvals, pres, prefix='l')
+        R = mkframe(rvals, pres, prefix='r')
     tok = make_tokenizer(spec)
     J = call_join(meas, L, R, tok, t, op, job.get('ae', True), n_jobs=nj1)
     fmeas = 'OVERLAP' if meas in ('OVERLAP', 'OVERLAP_COEFFICIENT') else meas
@@ -198,6 +206,15 @@ def layers(tier):
             for fname in fnames:
                 jobs.append({'gen': {'gen': 'univ', 'K': K - 1, 'Kr': K, 'dup': True}, 'meas': meas, 't': t,
                              'op': '>=', 'filter': fname, 'tok': ['ws', False], 'pres': pres})
+    for variant in (0, 1):      # feature-rich tables: blanks, repeated tokens, unsorted keys, repeated labels
+        for meas in SET_MEASURES + ('OVERLAP',):
+            fnames = ('Overlap',) if meas == 'OVERLAP_COEFFICIENT' else ('Size', 'Prefix', 'Position', 'Overlap')
+            for t in ((1, 2, 3) if meas == 'OVERLAP' else (0.4, 0.5, 2.0 / 3, 1.0)):
+                for op in ('>=', '>', '='):
+                    for fname in fnames:
+                        for spec in (['ws', True], ['ws', False]):
+                            jobs.append({'gen': {'gen': 'rich', 'variant': variant}, 'meas': meas, 't': t, 'op': op,
+                                         'filter': fname, 'nj': (1, 1) if spec[1] else (3, 2), 'tok': spec, 'pres': pres})
     Ls = [Layer('univ', 'checks.c07:w_pipeline', jobs,
                 'UNIV(%d) x 5 measures x TH_att u k/10 x op x first-stage filter in {Size,Prefix,Position,'
                 'Overlap>=1} x n_jobs of both stages; bag tokenizer with repeated tokens on skewed universes; '
